@@ -441,7 +441,7 @@ class Translator:
                 f = lambda x: _pyint(self.eval(x, env, mod, depth)) if x is not None else None
                 return slice(f(e.lower), f(e.upper), f(e.step))
             v = self.eval(e, env, mod, depth)
-            if v is None:
+            if v is None or (isinstance(v, Opaque) and v.name.split(".")[-1] == "newaxis"):
                 return None
             return _pyint(v)
 
@@ -556,6 +556,11 @@ class Translator:
     # ---------------------------------------------------------------- calls
     def call(self, n, env, mod, depth):
         f = n.func
+        if isinstance(f, ast.Name) and f.id == "super" and "__fn__" in env and getattr(env["__fn__"], "cls", None) is not None:
+            # super() / super(Class, self): the next class in the MRO of the symbolic self
+            me = env.get(env["__fn__"].params[0]) if env["__fn__"].params else None
+            if isinstance(me, SelfObj):
+                return SuperObj(me, env["__fn__"].cls)
         d = dotted(f)
         args = []
         for a in n.args:
@@ -720,6 +725,13 @@ class Translator:
                 return list(obj.keys())
             if name == "values":
                 return list(obj.values())
+        if isinstance(obj, SuperObj):
+            mro = obj.self_obj.cls.mro if obj.self_obj.cls is not None else []
+            after = mro[mro.index(obj.cls) + 1:] if obj.cls in mro else []
+            for c in after:
+                if name in c.methods:
+                    return self.apply(BoundMethod(c.methods[name], obj.self_obj), args, kwargs, n, depth)
+            raise Unmodelled("super().%s not found" % name)
         if isinstance(obj, SelfObj):
             return self.apply(obj.get(name, self, depth), args, kwargs, n, depth)
         if is_sym(obj) and self.hooks.get("sym_method"):
@@ -1099,6 +1111,16 @@ class Translator:
         raise Unmodelled("operator %s" % type(op).__name__)
 
     def compare(self, op, a, b):
+        if is_arr(a) or is_arr(b):
+            # element-wise comparison of component arrays: an array of sympy relationals
+            rel = {ast.Lt: sp.Lt, ast.LtE: sp.Le, ast.Gt: sp.Gt, ast.GtE: sp.Ge, ast.Eq: sp.Eq, ast.NotEq: sp.Ne}.get(type(op))
+            if rel is None:
+                raise Unmodelled("array comparison %s" % type(op).__name__)
+            A, B = np.broadcast_arrays(as_arr(a) if is_arr(a) else np.array(_s(a), dtype=object), as_arr(b) if is_arr(b) else np.array(_s(b), dtype=object))
+            out = np.empty(A.shape, dtype=object)
+            for i in np.ndindex(A.shape):
+                out[i] = rel(A[i], B[i])
+            return out
         if isinstance(op, (ast.In, ast.NotIn)):
             if isinstance(b, (list, tuple, dict, str, range)):
                 r = _pykey(a) in ([_pykey(x) for x in b] if not isinstance(b, (dict, str)) else b)
@@ -1166,6 +1188,11 @@ class PySet(list):
         k = _pykey(x)
         if k in self:
             list.remove(self, k)
+
+
+class SuperObj:
+    def __init__(self, self_obj, cls):
+        self.self_obj, self.cls = self_obj, cls
 
 
 class Raised(Exception):
